@@ -678,10 +678,37 @@ def materialize(op, L, limits):
     raise HarnessError(f'unknown operation {op!r}')
 
 
+def _fifo_tap(tap) -> None:
+    """Work-around for vlib.world.Tap: two packets that get the same delivery time are scheduled with two
+    call_at() handles of equal deadline, and asyncio's timer heap does not keep those in insertion order, so a
+    delayed tap can swap ACL fragments.  Here every callback delivers the OLDEST queued packet of its direction."""
+    import collections
+
+    queues = {world.H2C: collections.deque(), world.C2H: collections.deque()}
+
+    def forward(direction, packet):
+        now = tap.loop.time()
+        when = max(tap._last[direction], now + next(tap._delays[direction]) * tap.unit)
+        tap._last[direction] = when
+        queues[direction].append(packet)
+
+        def deliver():
+            tap._deliver(direction, queues[direction].popleft())
+
+        if when <= now:
+            tap.loop.call_soon(deliver)
+        else:
+            tap.loop.call_at(when, deliver)
+
+    tap._forward = forward
+
+
 async def _drive(loop, case, S):
     eatt = case['bearer'] == 'eatt'
     delays = list(case.get('delays') or []) or None
     w = world.World(2 if eatt else 1, delays=delays)
+    for node in w.nodes:
+        _fifo_tap(node.tap)
     dev = w[0].device
     info = build_db(dev, case['db'])
     dev.gatt_server.max_mtu = int(case['server_mtu'])
